@@ -57,6 +57,8 @@ det = {}
 if res.get("patch_applies_to_head"):
     rc, out = sh("git -C /repo diff --quiet"); assert rc == 0, "repo dirty"
     rc, out = sh(f"git -C /repo apply {dst}/patch.diff"); assert rc == 0, out
+    evbak = subprocess.check_output("mktemp -d", shell=True, text=True).strip()
+    sh(f"cp -a /verif/evidence/. {evbak}/")
     try:
         for cid in ids:
             t0 = time.time()
@@ -65,6 +67,7 @@ if res.get("patch_applies_to_head"):
             det[cid] = {"rc": rc, "violation_lines": out.count("\nVIOLATION") + out.startswith("VIOLATION"), "signatures": sorted(set(sigs))[:6], "wall_s": round(time.time() - t0, 1)}
     finally:
         sh("git -C /repo checkout -- .")
+        sh(f"cp -a {evbak}/. /verif/evidence/; rm -rf {evbak}")
 meta.update({"confirmed": res, "checks_run_quick": det, "confirmed_at_repo_commit": subprocess.check_output("git -C /repo log --format=%h -1", shell=True, text=True).strip()})
 json.dump(meta, open(f"{dst}/meta.json", "w"), indent=1)
 print(name, json.dumps(res)[:600]); print("  detection:", json.dumps(det))
